@@ -450,3 +450,34 @@ Proof.
   revert s; induction h1 as [|o r IH]; intros s; cbn [app trace exec fold_left]; [reflexivity|].
   rewrite IH. reflexivity.
 Qed.
+
+(** "ask earlier": the inequality of [ask_at_most_once] after every prefix of the history -- the k-th delivery of
+    an id to a connection happens no earlier than the connection's k-th ask for it (order-preserving matching) *)
+Corollary ask_at_most_once_prefix_proof : forall h i c id,
+  (count_id id (received c (trace init (firstn i h))) + count_id id (pending c (exec init (firstn i h)))
+   <= asks_of c id (firstn i h))%nat.
+Proof. intros h i c id. pose proof (ask_at_most_once_proof (firstn i h) c id). lia. Qed.
+
+(** both halves of "an ask is answered if the message is live" *)
+Theorem ask_answered_if_live_proof :
+  (forall h c a t e m,
+     length a = HDR_SIZE ->
+     lookup (hdr_id a) (msgs (exec init h)) = Some (Ready e m) -> t < e ->
+     let s := exec init h in
+     let s' := fst (step s (OSend c a t)) in
+     snd (step s (OSend c a t)) = [ObsSend true] /\
+     pending c s' = m :: pending c s /\
+     (forall c', c' <> c -> pending c' s' = pending c' s) /\
+     lookup (hdr_id a) (msgs s') = Some (Ready e m))
+  /\
+  (forall h1 c a t h2 o f tp,
+     length a = HDR_SIZE ->
+     (forall e m, lookup (hdr_id a) (msgs (exec init h1)) = Some (Ready e m) -> e <= t) ->
+     times_before (t + hdr_ttl a) h2 ->
+     (forall o', In o' h2 -> ~ publishes (hdr_id a) o') ->
+     is_publish o f tp -> hdr_id f = hdr_id a -> tp < t + hdr_ttl a ->
+     let s := exec init (h1 ++ OSend c a t :: h2) in
+     let s' := fst (step s o) in
+     exists n, (1 <= n)%nat /\ pending c s' = pending c s ++ repeat f n /\
+               lookup (hdr_id a) (msgs s') = Some (Ready (tp + hdr_ttl f) f)).
+Proof. split; [exact ask_answered_immediately_proof|exact ask_answered_when_published_proof]. Qed.
